@@ -33,16 +33,16 @@ Theorem lexer_total : forall q, exists ts, lex q = Some ts.
 Proof. exact lex_total. Qed.
 Print Assumptions lexer_total.
 
-(* every well-formed expression, printed with minimal parentheses, is read back
-   as itself: the parser's precedence and associativity on all three operator
-   tiers are what the printer assumes.  _partial: the expression sub-language
-   [printable] (literals other than floats, names, parameters, every unary /
-   binary / ternary operator, arrays, calls, error suppression); objects,
-   member paths, ranges, sub-queries and FOR clauses are covered by the
-   correspondence check only.  The printer parenthesises a then-branch unless
-   it begins with a token that settles "cond ? ..." as a ternary (Render.then_safe);
-   on printed text every reading of the '?' tokens gives the same tree
-   (ParserProofs.parse_print_expr_any), so the search returns it. *)
+(* every expression of the printable class, printed with minimal parentheses,
+   is read back as itself: the parser's precedence and associativity on all
+   three operator tiers are what the printer assumes.  (The name is kept from
+   the time when [printable] was the operator sub-language only; the class is
+   now everything the AST has except float literals — see
+   [parse_print_program] below for what [printable] admits.)  The printer
+   parenthesises a then-branch unless it begins with a token that settles
+   "cond ? ..." as a ternary (Render.then_safe); on printed text every reading
+   of the '?' tokens gives the same tree (ParserProofs.parse_print_expr_any),
+   so the search returns it. *)
 Theorem parse_print_expr_partial : forall e,
   printable e = true -> parse_expr (print_expr e) = POk e [].
 Proof. exact parse_print_expr_lemma. Qed.
@@ -68,6 +68,43 @@ Theorem suffix_rejected_partial : forall extra e k t r,
   parse_program (ret_toks extra e ++ (k, t) :: r) = None.
 Proof. exact suffix_rejected_lemma. Qed.
 Print Assumptions suffix_rejected_partial.
+
+(* THE round trip for whole programs: every program of the printable class —
+   LET / call statements followed by RETURN e or a FOR loop; loops with FILTER,
+   SORT (ASC / DESC), LIMIT (with offset), LET, call statements, COLLECT in all
+   its forms (grouping, INTO with and without projection, WITH COUNT INTO,
+   AGGREGATE), nested FOR, FOR ... WHILE / DO WHILE, sub-queries in
+   parentheses; expressions with every operator, ternaries incl. shorthand,
+   arrays, objects (named, quoted, computed, @parameter and shorthand
+   properties), member paths (dotted, computed, optional), ranges, calls (also
+   with namespaces), error suppression — printed with minimal parentheses is
+   well-formed text that reads back as itself, under every reading of the
+   undecided '?' tokens and with the fuel the model uses.
+   Excluded from [printable_prog]: float literals (the printer's decimal
+   expansion is not characterised), negative integer literals (the grammar has
+   none: they print as unary minus), names / strings / integers the lexer
+   would not read back (see var_ok, ident_ok, let_ok, call_ok, str_ok, int_ok),
+   variables named DISTINCT, member paths on other sources than names, calls,
+   array and object literals, an error-suppressed call as loop source or LIMIT
+   value (the printer parenthesises it), COLLECT without grouping and without
+   counter / aggregator, empty SORT / AGGREGATE lists. *)
+Theorem parse_print_program : forall p,
+  printable_prog p = true -> parse_program (print_min p) = Some p.
+Proof. exact (parse_print_program_lemma no_extra). Qed.
+Print Assumptions parse_print_program.
+
+(* the same under every reading, as a statement about one parse: no reading
+   of the undecided '?' tokens leaves a token over or runs out of fuel *)
+Theorem parse_print_program_every_reading : forall ch p,
+  printable_prog p = true -> parse_prefix_with ch (print_min p) = POk p [].
+Proof. exact (fun ch => parse_print_program_any ch no_extra). Qed.
+Print Assumptions parse_print_program_every_reading.
+
+(* a loop on its own *)
+Theorem parse_print_for : forall q,
+  printable_for q = true -> parse_program (pr_for no_extra q) = Some (for_prog q).
+Proof. exact (parse_print_for_lemma no_extra). Qed.
+Print Assumptions parse_print_for.
 
 (* non-vacuity *)
 Example ex_printable :
@@ -107,4 +144,20 @@ Proof. vm_compute. reflexivity. Qed.
 Example ex_preference :
   parse_text (bs "RETURN (1) ? - (0) ? - 5 : 7") =
   Some (ret_prog (ECond (EMath MSub (ESuppress (EInt 1)) (EInt 0)) (Some (EUn UNeg (EInt 5))) (EInt 7))).
+Proof. vm_compute. reflexivity. Qed.
+
+(* a program with a loop, COLLECT, member paths, an object and a sub-query *)
+Definition ex_prog : program :=
+  {| p_stmts := [SLet (bs "xs") (EArr [EInt 1; EInt 2; EInt 3])];
+     p_ret := BFor (ForIn (bs "i") (Some (bs "k")) (EVar (bs "xs"))
+                [CFilter (ECmp CGt (EVar (bs "i")) (EInt 1));
+                 CSort [(EMember (EVar (bs "i")) [Seg false (EStr (bs "a")); Seg true (EInt 0)], true)];
+                 CLimit (Some (EInt 1)) (EParam (bs "n"));
+                 CCollect [(bs "g", EMath MMod (EVar (bs "i")) (EInt 2))] (CTInto (bs "grp") None)]
+                (RReturn true (EObj [PNamed (bs "g") (EVar (bs "g")); PShort (bs "grp");
+                                     PComputed (EParam (bs "p")) (ERange (EInt 1) (EVar (bs "g")));
+                                     PNamed (bs "sub q") (ESub (ForWhile (bs "j") true (EBool false) [] (RReturn false (EVar (bs "j")))))]))) |}.
+Example ex_prog_printable : printable_prog ex_prog = true.
+Proof. vm_compute. reflexivity. Qed.
+Example ex_prog_roundtrip : parse_program (print_min ex_prog) = Some ex_prog.
 Proof. vm_compute. reflexivity. Qed.
